@@ -410,3 +410,61 @@ def src_expr(e):
     from ..astutil import src
 
     return src(e, 60) if e is not None else '?'
+
+
+def zip_alignment(ctx, rule, f, what):
+    """`zip(a, b)` pairs element i of a with element i of b: when b was computed element-wise from a list c and a is a
+    filtered / different view of c, the pairs do not belong together (a verdict computed for one object is applied to another)."""
+    from ..astutil import deref, src
+    from .common import func_label, loc
+
+    def base_of(e, depth=0):
+        """(source list name, 'same' | 'subset' | 'map') for an expression derived from a named list"""
+        if depth > 4:
+            return None
+        if isinstance(e, ast.Name):
+            defs = [a.value for a in ast.walk(f.node) if isinstance(a, ast.Assign) and any(isinstance(t, ast.Name) and t.id == e.id for t in a.targets)]
+            if not defs:
+                return (e.id, 'same')
+            bases = {base_of(d, depth + 1) for d in defs}
+            if len(bases) == 1 and None not in bases:
+                return next(iter(bases))
+            return (e.id, 'same')
+        if isinstance(e, ast.Await):
+            return base_of(e.value, depth + 1)
+        if isinstance(e, (ast.ListComp, ast.SetComp, ast.GeneratorExp)) and len(e.generators) == 1 and isinstance(e.generators[0].iter, ast.Name):
+            src_ = e.generators[0].iter.id
+            kind = 'subset' if e.generators[0].ifs else 'map'
+            return (src_, kind)
+        if isinstance(e, ast.Call):
+            names = [a for a in e.args if isinstance(a, ast.Name)]
+            fname = (e.func.attr if isinstance(e.func, ast.Attribute) else getattr(e.func, 'id', '')) or ''
+            if fname in ('filter',) and len(e.args) == 2 and isinstance(e.args[1], ast.Name):
+                return (e.args[1].id, 'subset')
+            if fname in ('list', 'tuple', 'sorted', 'map', 'run_in_executor', 'submit', 'to_thread') or names:
+                if names:
+                    return (names[-1].id, 'map')
+        if isinstance(e, ast.BinOp) and isinstance(e.op, ast.Mult):
+            for side in (e.left, e.right):
+                if isinstance(side, ast.Call) and getattr(side.func, 'id', '') == 'len' and side.args and isinstance(side.args[0], ast.Name):
+                    return (side.args[0].id, 'map')
+        return None
+
+    n = 0
+    for c in ast.walk(f.node):
+        if isinstance(c, ast.Call) and isinstance(c.func, ast.Name) and c.func.id == 'zip' and len(c.args) == 2:
+            n += 1
+            a, b = base_of(c.args[0]), base_of(c.args[1])
+            if a is None or b is None:
+                continue
+            bad = a[0] == b[0] and {a[1], b[1]} & {'subset'} and a[1] != b[1]
+            ctx.check(
+                not bad,
+                rule,
+                f'{func_label(f)}|zip-pairs-belong-together',
+                loc(f, c),
+                f'{what}: `{src(c, 60)}` pairs sequences of the same elements',
+                f'{what}: `{src(c, 60)}` pairs a filtered view of `{a[0]}` with values computed for every element of `{b[0]}` (or the reverse): the i-th verdict belongs to a different object than the i-th element - '
+                'objects are selected on the strength of another object\'s check',
+            )
+    return n
